@@ -40,6 +40,37 @@ case "$MODE" in
         "$BIN" "$ID" --replay "${3:?replay file}"; rc=$? ;;
     *) echo "unknown mode $MODE"; exit 2 ;;
 esac
+# thorough tier: bounded coverage-guided campaigns with the same oracle inside the target
+if [ "$MODE" = "thorough" ] && [ $rc -eq 0 ] && [ "${VERIF_NO_FUZZ:-0}" != "1" ]; then
+    S="${VERIF_SEED:-0}"
+    case "$ID" in
+        C01) FZ="synth_structured synthesis ${VERIF_FUZZ_RUNS:-400000}" ;;
+        C02) FZ="gen_history random-history ${VERIF_FUZZ_RUNS:-300000}" ;;
+        C17) FZ="label_text - ${VERIF_FUZZ_RUNS:-3000000}" ;;
+        C18) FZ="load_voice - ${VERIF_FUZZ_RUNS:-1500000}" ;;
+        *) FZ="" ;;
+    esac
+    if [ -n "$FZ" ]; then
+        set -- $FZ
+        out="$("$HERE/tools/fuzz_campaign.sh" "$ID" "$1" "$2" "$3" "$S" 16 2>&1)"; frc=$?
+        echo "$out" | grep -a -E "^(FUZZ |VIOLATION|INCONCLUSIVE|  )"
+        line="$(echo "$out" | grep -a "^FUZZ-JSON " | sed 's/^FUZZ-JSON //')"
+        if [ -n "$line" ]; then
+            python3 - "$VERIF_DIR/evidence/$ID.json" "$line" <<'PY'
+import json, sys
+path, extra = sys.argv[1], json.loads(sys.argv[2])
+e = json.load(open(path))
+e["coverage"]["libfuzzer_campaign"] = extra
+e["coverage"]["evaluations"] += extra["executions"]
+e["coverage"]["rule"] += " || [libfuzzer:%s] coverage-guided byte inputs (seed corpus from `check gen-corpus`, -len_control=0) decoded by the same decoder and judged by the same oracle; executions are counted in evaluations, not in distinct_nontrivial" % extra["target"]
+if extra["crashes"]:
+    e["violations"] = e.get("violations", 0) + 1
+json.dump(e, open(path, "w"), indent=2)
+PY
+        fi
+        case $frc in 0) ;; 1) rc=1 ;; *) rc=2 ;; esac
+    fi
+fi
 case $rc in
     0|1) exit $rc ;;
     *) echo "INCONCLUSIVE: check exited with status $rc"; exit 2 ;;
